@@ -36,7 +36,7 @@ CLAIMS = {
         'zeroed step results, padding clients skipped, step results truncated, mask/padding pairing in _blockify), the '
         'thread-local scoped backend selection restored in finally with a who-may-write check, and that every JAX entry point '
         'used exists in the installed jax. Equality of values across backends is not decided.',
-   design='DESIGN.md section 4 C02; rules R-DONATE, R-YIELD1, R-FOLD, R-MASK M-c, R-SCOPE, R-API',
+   design='DESIGN.md section 4 C02; rules R-DONATE, R-YIELD1, R-FOLD, R-MASK M-c, R-SCOPE, R-API, R-LEAF.scalar',
    technique='buffer-ownership dataflow + CFG must-pass-through (yield/finally) + structural pairing checks + getattr/signature API check',
    note='R-API imports the installed third-party packages (jax, numpy, haiku, optax) to inspect attributes/signatures; fedjax itself is never imported.'),
  'C03': dict(
